@@ -930,6 +930,11 @@ func (c *compiler) evalCallExpression(node *ast.CallExpression) (interface{}, er
 		}
 
 		rc := reflect.ValueOf(recv)
+		for rc.Kind() == reflect.Ptr && !rc.IsNil() && rc.Elem().Kind() == reflect.Ptr {
+			// a pointer to a pointer: the methods are those of the inner one
+			rc = rc.Elem()
+		}
+
 		if !rc.IsValid() || (rc.Kind() == reflect.Ptr && rc.IsNil()) {
 			return nil, fmt.Errorf("'%s' is nil, cannot call '%s' on it", node.Callee.String(), node.Function.String())
 		}
